@@ -1,4 +1,4 @@
-import PsiProofs.Helper.C11_Getitem
+import PsiProofs.Helper.C11_Select
 /-!
 # C11 — annotated arrays keep time base, channel labels and metadata aligned
 
@@ -95,5 +95,141 @@ theorem strided_rate (a : PD) (hwf : WF a) (s : PySlice) (k : Int) (hk : 1 ≤ k
   | d3 e c n data s0 fs l ms hd hl hm =>
     obtain ⟨d, hd⟩ := getitem_tslice_3d data s0 fs s k _ e c n l ms (by omega) hs' (slicePositions_pos s n k (by omega) hs')
     exact ⟨_, hd, hfs fs, rfl, rfl, by simp [PD.nTime]⟩
+
+/-- index entries of the property's grammar that address a channel or epoch axis:
+ints, slices with step ≥ 1, int lists, boolean masks (as list or ndarray). -/
+def Item.selects : Item → Prop
+  | .int _ => True
+  | .slice s => s.step = none ∨ ∃ k : Int, 1 ≤ k ∧ s.step = some k
+  | .ilist _ | .blist _ | .iarr _ | .barr _ => True
+  | .newaxis | .ellipsis => False
+
+theorem Item.selects_ne {it : Item} (h : it.selects) : it ≠ .newaxis ∧ it ≠ .ellipsis := by
+  cases it <;> simp_all [Item.selects]
+
+/-- positions selected by NumPy lie on the axis. -/
+theorem itemSel_lt {it : Item} (hit : it.selects) {n : Nat} {sel : Sel} (h : itemSel it n = .ok sel) :
+    ∀ p ∈ sel.positions, p < n := by
+  cases it with
+  | newaxis => exact absurd hit (by simp [Item.selects])
+  | ellipsis => exact absurd hit (by simp [Item.selects])
+  | int i =>
+    simp only [itemSel, Except.map] at h
+    split at h
+    · cases h
+    · rename_i p hp; cases h; intro q hq; simp [Sel.positions] at hq; subst hq; exact wrapIndex_lt hp
+  | slice s =>
+    simp only [itemSel, Except.map] at h
+    split at h
+    · cases h
+    · rename_i ps hp
+      cases h
+      rcases hit with hn | ⟨k, hk, hs⟩
+      · exact slicePositions_pos_lt 1 (by omega) (by simp [hn]) hp
+      · exact slicePositions_pos_lt k (by omega) (by simp [hs]) hp
+  | ilist l =>
+    simp only [itemSel] at h
+    split at h
+    · cases h; simp [Sel.positions]
+    · simp only [Except.map] at h
+      split at h
+      · cases h
+      · rename_i ps hp; cases h; exact wrapAll_lt hp
+  | iarr l =>
+    simp only [itemSel, Except.map] at h
+    split at h
+    · cases h
+    · rename_i ps hp; cases h; exact wrapAll_lt hp
+  | blist m =>
+    simp only [itemSel] at h
+    split at h
+    · cases h; simp [Sel.positions]
+    · simp only [Except.map] at h
+      split at h
+      · cases h
+      · rename_i ps hp; cases h; exact maskPositions_lt hp
+  | barr m =>
+    simp only [itemSel, Except.map] at h
+    split at h
+    · cases h
+    · rename_i ps hp; cases h; exact maskPositions_lt hp
+
+/-- number of labels attached by a selection = number of rows it selects (`none`: the axis is dropped). -/
+def chanCount : Chan → Option Nat
+  | .one _ => none
+  | .many l => some l.length
+
+def metaCount : Meta → Option Nat
+  | .one _ => none
+  | .many l => some l.length
+
+theorem selChan_count (l : List Label) (sel : Sel) (h : ∀ p ∈ sel.positions, p < l.length) :
+    chanCount (selChan l sel) = (selShape sel).head? := by
+  cases sel with
+  | idx p => simp [selChan, chanCount, selShape]
+  | basic ps => simpa [selChan, chanCount, selShape] using listTake_length l ps h
+  | fancy ps => simpa [selChan, chanCount, selShape] using listTake_length l ps h
+  | new => simp [selChan, chanCount, selShape]
+
+theorem selMeta_count (l : List Md) (sel : Sel) (h : ∀ p ∈ sel.positions, p < l.length) :
+    metaCount (selMeta l sel) = (selShape sel).head? := by
+  cases sel with
+  | idx p => simp [selMeta, metaCount, selShape]
+  | basic ps => simpa [selMeta, metaCount, selShape] using listTake_length l ps h
+  | fancy ps => simpa [selMeta, metaCount, selShape] using listTake_length l ps h
+  | new => simp [selMeta, metaCount, selShape]
+
+/-- **Channel selection, 2-D.** For a well-formed `(channel, time)` array and any int / slice / int list / boolean
+mask `it` that NumPy accepts on the channel axis (`itemSel it c = ok sel`: `sel` lists the rows NumPy selects),
+`x[it]` succeeds, the labels of the result are exactly the labels at those rows, in that order, their number equals
+the length of the resulting channel axis, and `s0`, `fs`, metadata are untouched. -/
+theorem channel_select_2d (c n : Nat) (data : List Nat) (s0 : Int) (fs : Rat) (l : List Label) (m : Md)
+    (hl : l.length = c) (it : Item) (hit : it.selects) (sel : Sel) (h : itemSel it c = .ok sel) :
+    ∃ r, getitem ⟨[c, n], data, s0, fs, .many l, .one m⟩ (.one it) = .ok (.arr r) ∧
+      r.channel = selChan l sel ∧ r.shape = selShape sel ++ [n] ∧
+      chanCount r.channel = (selShape sel).head? ∧
+      r.s0 = s0 ∧ r.fs = fs ∧ r.metadata = .one m := by
+  obtain ⟨d, hd⟩ := getitem_chan_2d c n data s0 fs l m hl it (Item.selects_ne hit) sel h
+  exact ⟨_, hd, rfl, rfl, selChan_count l sel (hl ▸ itemSel_lt hit h), rfl, rfl, rfl⟩
+
+/-- **Channel selection, 3-D**: `x[:, it]` (`it` an int, a slice or a list; an ndarray inside a tuple is
+refused with `ValueError`). Labels = labels at the selected rows; epochs' metadata untouched. -/
+theorem channel_select_3d (e c n : Nat) (data : List Nat) (s0 : Int) (fs : Rat) (l : List Label) (ms : List Md)
+    (hl : l.length = c) (it : Item) (hit : it.selects) (hna : (∀ x, it ≠ .iarr x) ∧ (∀ x, it ≠ .barr x))
+    (sel : Sel) (h : itemSel it c = .ok sel) :
+    ∃ r, getitem ⟨[e, c, n], data, s0, fs, .many l, .many ms⟩ (.tuple [.slice .all, it]) = .ok (.arr r) ∧
+      r.channel = selChan l sel ∧ r.shape = [e] ++ selShape sel ++ [n] ∧
+      chanCount r.channel = (selShape sel).head? ∧
+      r.s0 = s0 ∧ r.fs = fs ∧ r.metadata = .many ms := by
+  obtain ⟨d, hd⟩ := getitem_chan_3d e c n data s0 fs l ms hl it
+    ⟨(Item.selects_ne hit).1, (Item.selects_ne hit).2, hna.1, hna.2⟩ sel h
+  exact ⟨_, hd, rfl, rfl, selChan_count l sel (hl ▸ itemSel_lt hit h), rfl, rfl, rfl⟩
+
+/-- **Epoch selection**: `x[it]` on a well-formed `(epoch, channel, time)` array: the metadata entries of the
+result are exactly those of the selected epochs, in order, as many as the resulting epoch axis is long. -/
+theorem epoch_select (e c n : Nat) (data : List Nat) (s0 : Int) (fs : Rat) (lc : List Label) (ms : List Md)
+    (hm : ms.length = e) (it : Item) (hit : it.selects) (sel : Sel) (h : itemSel it e = .ok sel) :
+    ∃ r, getitem ⟨[e, c, n], data, s0, fs, .many lc, .many ms⟩ (.one it) = .ok (.arr r) ∧
+      r.metadata = selMeta ms sel ∧ r.shape = selShape sel ++ [c, n] ∧
+      metaCount r.metadata = (selShape sel).head? ∧
+      r.s0 = s0 ∧ r.fs = fs ∧ r.channel = .many lc := by
+  obtain ⟨d, hd⟩ := getitem_epoch_3d e c n data s0 fs lc ms hm it (Item.selects_ne hit) sel h
+  exact ⟨_, hd, rfl, rfl, selMeta_count ms sel (hm ▸ itemSel_lt hit h), rfl, rfl, rfl⟩
+
+/-- a boolean mask selects the labels at its `True` positions (spelled out with `keep`-style filtering). -/
+theorem mask_labels {α} (l : List α) (m : List Bool) (h : m.length = l.length) :
+    listTake l (trueIdx 0 m) = (l.zip m).filterMap fun (x, b) => if b then some x else none := by
+  suffices H : ∀ (pre : List α), listTake (pre ++ l) (trueIdx pre.length m) =
+      (l.zip m).filterMap fun (x, b) => if b then some x else none from by simpa using H []
+  induction l generalizing m with
+  | nil => intro pre; cases m <;> simp_all [trueIdx, listTake]
+  | cons x xs ih =>
+    intro pre
+    cases m with
+    | nil => simp at h
+    | cons b bs =>
+      have ih' := ih bs (by simpa using h) (pre ++ [x])
+      simp only [List.append_assoc, List.singleton_append, List.length_append, List.length_singleton] at ih'
+      cases b <;> simp [trueIdx, listTake, ih'] <;> simpa [listTake] using ih'
 
 end Psi.PData
